@@ -13,7 +13,7 @@ import os
 import cli as climod
 import core
 
-LEVEL = "model_checking"
+LEVEL = "exploration"     # cases are drawn from the specification under the TLC seed (a sample of a large space), expected results computed by TLC
 CFG = "INIT Init\nNEXT Next\nCONSTANTS N = %d\n"
 PREVIEW = 100
 
